@@ -115,8 +115,15 @@ def program(rep, index):
         outs = run_program(session, program_tree, order=order, runs=2)
         rep.count("program evaluations", len(outs))
         # P8: the paths of one evaluation differ only in what the output directory held beforehand
-        done = [o for o in outs if not o.rejected]
-        if len(done) > 1:
+        groups = {}
+        for o in outs:
+            if not o.rejected:
+                # like with like: the same symbol assumptions, whatever the output directory held
+                k = tuple(x for x in _assumptions(o.path()) if "the output directory already holds" not in x)
+                groups.setdefault(k, []).append(o)
+        for done in groups.values():
+            if len(done) < 2:
+                continue
             ref = {f["path"]: f["content"] for f in done[0].value[0].files}
             for o in done[1:]:
                 mine = {f["path"]: f["content"] for f in o.value[0].files}
@@ -160,6 +167,24 @@ def program(rep, index):
                        _diff_files(baseline[1], f1) or "identical to the output for order '%s'" % baseline[0])
             package_rules(rep, inst, r1, f1)
     rep.floor("program evaluations", 4)
+    # P9: a set has no order -- the same tree evaluated with every set iterated in insertion order, reversed, rotated
+    witness = None
+    base = None
+    for mode in ("insertion", "reversed", "rotated"):
+        for o in run_program(session, program_tree, order=dirs, runs=1, set_order=mode):
+            if o.rejected:
+                continue
+            files = {f["path"]: f["content"] for f in o.value[0].files}
+            if base is None:
+                base = files
+                continue
+            d = _diff_files(base, files)
+            inst = "generate() over the 7-directory tree, sets iterated in %s order, path[%s]" % (mode, o.path())
+            rep.ob("C18.P9 output-independent-of-set-iteration-order", inst, not d, d or "identical to the output with sets iterated in insertion order",
+                   key="C18.P9 | %s" % mode)
+            if d and witness is None:
+                witness = "with every set iterated in %s order: %s" % (mode, d)
+    return witness
 
 
 def _assumptions(path):
@@ -264,7 +289,7 @@ NONDET_CALLS = {"hash", "id"}
 NONDET_MODULES = {"random", "time", "uuid", "datetime", "secrets", "getpass", "socket", "platform"}
 
 
-def static_rules(rep, index):
+def static_rules(rep, index, set_order_witness=None):
     mods = [m for m in index.all_module_names(GEN_PKG)] + ["protocol"]
     rep.count("generator modules scanned", len(mods))
     set_typed_attrs, set_typed_names = set(), {}
@@ -316,6 +341,13 @@ def static_rules(rep, index):
                             continue
                     n_iter += 1
                     ok, why = _order_insensitive(node, kind, fn)
+                    if not ok:
+                        # the sink rule is a sufficient condition only: an alarm needs the order to reach the output
+                        if set_order_witness is None:
+                            raise AnalysisError("C18.D2: the iteration over a set at %s.%s line %d feeds a sink this rule does not recognise (%s), and "
+                                                "permuting the iteration order of every set does not change the output for the reference tree -- "
+                                                "undecided" % (name, getattr(fn, "name", "lambda"), node.lineno, why))
+                        why = "%s; witness: %s" % (why, set_order_witness)
                     rep.ob("C18.D2 set-iteration-feeds-order-insensitive-sink", "%s.%s line %d" % (name, getattr(fn, "name", "lambda"), node.lineno), ok,
                            why, loc=index.loc(m, node), key="C18.D2 | %s.%s" % (name, getattr(fn, "name", "lambda")))
     rep.count("set iterations", n_iter)
@@ -403,10 +435,19 @@ def _order_insensitive(node, kind, fn):
                 return False, "elements of a set are appended to %s in iteration order and %s is used without being sorted first" % (name, name)
         return True, "loop body only adds to sets" + (" / appends to %s, sorted before use" % ", ".join(sorted(appended)) if appended else "")
     # list comprehension / generator over a set: fine only as the direct argument of sorted()/set()/frozenset()/any()/all()/sum()/len()/min()/max()
+    INSENSITIVE = ("sorted", "set", "frozenset", "any", "all", "sum", "len", "min", "max")
     for p in ast.walk(fn):
-        if isinstance(p, ast.Call) and isinstance(p.func, ast.Name) and p.func.id in ("sorted", "set", "frozenset", "any", "all", "sum", "len", "min", "max") \
-                and p.args and p.args[0] is node:
+        if isinstance(p, ast.Call) and isinstance(p.func, ast.Name) and p.func.id in INSENSITIVE and p.args and p.args[0] is node:
             return True, "consumed by %s()" % p.func.id
+    # bound to a local name whose every use is the argument of an order-insensitive consumer
+    for st in ast.walk(fn):
+        if isinstance(st, ast.Assign) and st.value is node and len(st.targets) == 1 and isinstance(st.targets[0], ast.Name):
+            name = st.targets[0].id
+            stores = [n for n in ast.walk(fn) if isinstance(n, ast.Name) and n.id == name and isinstance(n.ctx, ast.Store)]
+            uses = [n for n in ast.walk(fn) if isinstance(n, ast.Name) and n.id == name and isinstance(n.ctx, ast.Load)]
+            consumers = {id(p.args[0]) for p in ast.walk(fn) if isinstance(p, ast.Call) and isinstance(p.func, ast.Name) and p.func.id in INSENSITIVE and p.args}
+            if len(stores) == 1 and uses and all(id(u) in consumers for u in uses):
+                return True, "bound to %s, which is only ever passed to sorted()/set()/len()/..." % name
     return False, "sequence built from a set in iteration order"
 
 
@@ -451,6 +492,6 @@ def run(rep, index):
     for k, v in stats.items():
         rep.count("lattice " + k, v)
     rep.floor("lattice accepted", 300)
-    static_rules(rep, index)
-    program(rep, index)
+    witness = program(rep, index)
+    static_rules(rep, index, witness)
     rep.undecided.append("generator success for valid specs beyond the shape lattice and its sequence bound; non-documented directory layouts")
